@@ -4,7 +4,7 @@ import ast
 from ..program import AnalysisError, U, own_nodes, walk_no_nested
 from ..dataflow import ReachingDefs, defs_of_node
 from ..consteval import fold
-from .common import (need, guards_of, calls_to, ext_calls, all_paths_pass, succs, normal_succs, path_conditions,
+from .common import (match_exact, guard_atom_sets, path_atom_sets, unmatched, need, guards_of, calls_to, ext_calls, all_paths_pass, succs, normal_succs, path_conditions,
                      is_param, arg_of, default_of, stores_in_package)
 from . import C15
 
@@ -174,7 +174,7 @@ def gate(R):
     gq = q + '._regular'
     gg = R.cfg(gq)
     rc = calls_to(R, gg, S + '._regular')
-    ok = len(rc) == 1 and {(t, p) for (t, p, _) in guards_of(gg, rc[0][0])} == {('self._ready', True)}
+    ok = len(rc) == 1 and match_exact(guard_atom_sets(gg, rc[0][0]), [{('self._ready', True)}])
     R.ob('C07.gate', 'closure gated on _ready', ok, 'self._regular() not gated on self._ready alone', func=gq,
          node=(rc[0][1] if rc else None), construct='_ready gate')
 
